@@ -25,8 +25,12 @@ R="$DST/confirm.log"; : > "$R"
 (cd "$W" && go test -vet=off -count=1 ./... ) >>"$R" 2>&1 && echo "suite with change: passes" | tee -a "$R" || echo "suite with change: FAILS" | tee -a "$R"
 while read -r f; do mkdir -p "$W/$(dirname "$f")"; cp "$DST/demo/$f" "$W/$f"; done < "$DST/demo/FILES.txt"
 PKGS=$(sed 's|/[^/]*$||' "$DST/demo/FILES.txt" | sort -u | sed 's|^|./|' | tr '\n' ' ')
-(cd "$W" && go test -vet=off -count=1 -run 'Seed|seed|Demo|demo|Refused|Zz|ZZ' $PKGS ) >>"$R" 2>&1 && echo "demo with change: PASSES (unexpected)" | tee -a "$R" || echo "demo with change: fails (expected)" | tee -a "$R"
-(cd "$W" && git apply -R "$DST/patch.diff" && go test -vet=off -count=1 -run 'Seed|seed|Demo|demo|Refused|Zz|ZZ' $PKGS ) >>"$R" 2>&1 && echo "demo without change: passes (expected)" | tee -a "$R" || echo "demo without change: FAILS (unexpected)" | tee -a "$R"
+# the tests to run are the ones the demonstration files define
+RUNPAT=$(while read -r f; do grep -ho '^func Test[A-Za-z0-9_]*' "$DST/demo/$f" 2>/dev/null | sed 's/^func //'; done < "$DST/demo/FILES.txt" | sort -u | tr '\n' '|' | sed 's/|$//')
+[ -n "$RUNPAT" ] || RUNPAT='Seed|seed|Demo|demo'
+RUNPAT="^($RUNPAT)\$"
+(cd "$W" && go test -vet=off -count=1 -run "$RUNPAT" $PKGS ) >>"$R" 2>&1 && echo "demo with change: PASSES (unexpected)" | tee -a "$R" || echo "demo with change: fails (expected)" | tee -a "$R"
+(cd "$W" && git apply -R "$DST/patch.diff" && go test -vet=off -count=1 -run "$RUNPAT" $PKGS ) >>"$R" 2>&1 && echo "demo without change: passes (expected)" | tee -a "$R" || echo "demo without change: FAILS (unexpected)" | tee -a "$R"
 (cd "$W" && git apply "$DST/patch.diff")
 while read -r f; do rm -f "$W/$f"; done < "$DST/demo/FILES.txt"
 cd "$V"
